@@ -395,6 +395,9 @@ impl Engine for C14 {
                 if rng.chance(1, 3) {
                     refcbor::bignumify(&mut rng, &mut it, 0);
                 }
+                if rng.chance(1, 4) {
+                    refcbor::undefine(&mut rng, &mut it, 0);
+                }
                 let mut out = Vec::new();
                 let widen = rng.range(0, 6) as u32;
                 let indef = rng.range(1, 8) as u32;
